@@ -47,9 +47,43 @@ def shape_counts(behaviours):
         l1_below += below
         emptied += empty_after
         deep += any(len(s["chain"]) == 4 for s in b)
-    return {"behaviours_with_fork_after_revert": forked, "behaviours_reading_with_l1_above_height": l1_above,
+    out = dropped_hash_reads(behaviours)
+    out.update({"behaviours_with_fork_after_revert": forked, "behaviours_reading_with_l1_above_height": l1_above,
             "behaviours_reading_with_l1_at_height": l1_at, "behaviours_reading_with_l1_below_height": l1_below,
-            "behaviours_reverted_to_empty_chain": emptied, "behaviours_reaching_4_blocks": deep}
+            "behaviours_reverted_to_empty_chain": emptied, "behaviours_reaching_4_blocks": deep})
+    return out
+
+
+KIND = {1: "INVOKE", 2: "L1_HANDLER", 3: "INVOKE_REVERTED", 4: "DEPLOY_ACCOUNT", 5: "DECLARE", 6: "DEPLOY",
+        7: "L1_HANDLER"}
+BY_HASH = ("getTransactionByHash", "getTransactionReceipt", "getTransactionStatus")
+
+
+def dropped_hash_reads(behaviours):
+    """By-hash reads of a transaction a revert dropped (not re-included by the fork), split by whether the
+    (number, index) slot it used to occupy now holds a DIFFERENT transaction of the fork block - the case in
+    which a tx-hash index entry surviving the revert answers with the wrong transaction - per kind."""
+    occupied, free = {}, 0
+    for b in behaviours:
+        txs_of, pos = {}, {}
+        for s in b:
+            a = s["a"]
+            if a["name"] == "Store":
+                txs_of[tuple(a["path"])] = a["txs"]
+                for i, t in enumerate(a["txs"]):
+                    pos[t] = (len(a["path"]) - 1, i)
+            elif a["name"] in BY_HASH and s["want"].get("e") == "TxnHashNotFound" and a["t"] in pos:
+                n, i = pos[a["t"]]
+                chain = s["chain"]
+                if len(chain) > n and len(txs_of[tuple(chain[:n + 1])]) > i:
+                    k = "%s:%s" % (a["name"], KIND.get(a["t"] % 10, "?"))
+                    occupied[k] = occupied.get(k, 0) + 1
+                else:
+                    free += 1
+    out = {"dropped_hash_reads_slot_occupied:" + k: v for k, v in sorted(occupied.items())}
+    out["dropped_hash_reads_slot_occupied"] = sum(occupied.values())
+    out["dropped_hash_reads_slot_free"] = free
+    return out
 
 
 def run(ctx):
@@ -89,7 +123,13 @@ def run(ctx):
     res = ctx.run_engine(binary, TEST, {"behaviours": behaviours, "first": 0}, timeout=3000)
     ctx.absorb(res, ENGINE, TEST)
     ctx.coverage["behaviours_generated"] = len(behaviours)
-    ctx.coverage.update(shape_counts(behaviours))
+    shapes = shape_counts(behaviours)
+    ctx.coverage.update(shapes)
+    missing = [m + ":" + k for m in BY_HASH for k in sorted(set(KIND.values()))
+               if shapes.get("dropped_hash_reads_slot_occupied:%s:%s" % (m, k), 0) == 0]
+    if missing:
+        raise vlib.Broken("behaviours are vacuous for reverted transaction hashes: no by-hash read of a dropped "
+                          "transaction whose old (number, index) slot is occupied by the fork block for %s" % missing)
     ctx.coverage["steps_replayed"] = res.get("steps", 0)
     stats = res.get("stats", {})
     if stats.get("answers_with_data", 0) < 100:
